@@ -310,6 +310,56 @@ fn check_gate_sig(np: usize, nq: usize, with_std: bool, obs: &mut Obs) {
     obs.done(true);
 }
 
+/// A user gate with the name of a standard-library gate (same or different arity), declared
+/// before `include "stdgates.inc";`: the first declaration stays, the include reports exactly one
+/// redeclaration, and every other library gate is present.
+fn check_gate_collision(name_ix: usize, np: usize, nq: usize, obs: &mut Obs) {
+    let (name, sa, sb) = STDGATES[name_ix % STDGATES.len()];
+    let ps: Vec<String> = (0..np).map(|i| format!("p{i}")).collect();
+    let qs: Vec<String> = (0..nq).map(|i| format!("q{i}")).collect();
+    let plist = if np == 0 { String::new() } else { format!("({})", ps.join(", ")) };
+    let src = format!("gate {name}{plist} {} {{ }}\ninclude \"stdgates.inc\";\n", qs.join(", "));
+    obs.fp.str(&src);
+    let res = match analyse_text(&src) {
+        Ok(r) => r,
+        Err(_) => {
+            obs.inconclusive("analysis failed");
+            return;
+        }
+    };
+    let same = if (sa, sb) == (np, nq) { "same-arity" } else { "other-arity" };
+    let cell = |clause: &str| format!("gate-collision/{same}/{clause}");
+    let r = guard(|| {
+        let t = res.symbol_table();
+        let mut problems: Vec<(String, String)> = Vec::new();
+        let mut listed: Vec<(String, usize, usize)> = t.gates().map(|(n, _, a, b)| (n.to_string(), a, b)).collect();
+        listed.sort();
+        let mut want: Vec<(String, usize, usize)> = STDGATES.iter().filter(|g| g.0 != name).map(|(n, a, b)| (n.to_string(), *a, *b)).collect();
+        want.push((name.to_string(), np, nq));
+        want.sort();
+        if listed != want {
+            let extra: Vec<_> = listed.iter().filter(|x| !want.contains(x)).collect();
+            let missing: Vec<_> = want.iter().filter(|x| !listed.contains(x)).collect();
+            problems.push(("gates-listing".into(), format!("unexpected {extra:?}, missing {missing:?}")));
+        }
+        let redecl = res.semantic_errors().iter().filter(|e| diag_kind(e) == "RedeclarationError").count();
+        if redecl != 1 {
+            problems.push(("redeclaration-count".into(), format!("{redecl} RedeclarationError diagnostics, expected exactly 1")));
+        }
+        problems
+    });
+    match r {
+        Ok(problems) => {
+            for (c, d) in problems {
+                obs.violate(cell(&c), format!("{src:?}: {d}"));
+            }
+        }
+        Err(p) => obs.inconclusive(format!("monitor panicked {}", p.site())),
+    }
+    obs.class("gate-signature");
+    obs.done(true);
+}
+
 fn check_def_sig(seed: u64, obs: &mut Obs) {
     let mut r = Rng::new(seed);
     let np = r.below(5) as usize;
@@ -338,8 +388,43 @@ fn check_def_sig(seed: u64, obs: &mut Obs) {
     } else {
         None
     };
+    // widths may be written as global const identifiers; the body may declare the same names again
+    // (with other values, or non-const): the signature is resolved where it is written
+    let mut preamble = String::new();
+    let mut body = String::new();
+    let mut ret_text = ret.as_ref().map(|r| r.0.clone());
+    let via_const = r.chance(1, 2);
+    if via_const {
+        let mut k = 0;
+        let mut constify = |t: &str, preamble: &mut String, body: &mut String, r: &mut Rng| -> String {
+            // `int[32]` -> `int[wk]` with `const uint wk = 32;`
+            if let (Some(a), Some(b)) = (t.find('['), t.rfind(']')) {
+                let inner = &t[a + 1..b];
+                if inner.chars().all(|c| c.is_ascii_digit()) && !t.starts_with("complex") {
+                    let name = format!("wdt{k}");
+                    k += 1;
+                    preamble.push_str(&format!("const uint {name} = {inner};\n"));
+                    match r.below(3) {
+                        0 => body.push_str(&format!("const uint {name} = {};\n", inner.parse::<u64>().unwrap_or(1) + 8)),
+                        1 => body.push_str(&format!("int {name};\n")),
+                        _ => {}
+                    }
+                    return format!("{}[{name}]", &t[..a]);
+                }
+            }
+            t.to_string()
+        };
+        for p in params.iter_mut() {
+            if !p.0.starts_with("qubit") {
+                p.0 = constify(&p.0.clone(), &mut preamble, &mut body, &mut r);
+            }
+        }
+        if let Some(t) = &ret_text {
+            ret_text = Some(constify(t, &mut preamble, &mut body, &mut r));
+        }
+    }
     let plist: Vec<String> = params.iter().map(|(t, _, n)| format!("{t} {n}")).collect();
-    let src = format!("def user_def({}){} {{ }}\n", plist.join(", "), ret.as_ref().map(|r| format!(" -> {}", r.0)).unwrap_or_default());
+    let src = format!("{preamble}def user_def({}){} {{ {body}}}\n", plist.join(", "), ret_text.as_ref().map(|r| format!(" -> {r}")).unwrap_or_default());
     obs.fp.str(&src);
     let res = match analyse_text(&src) {
         Ok(r) => r,
@@ -376,7 +461,7 @@ fn check_def_sig(seed: u64, obs: &mut Obs) {
             }
         }
         // DefStmt::return_type of the graph
-        if let Some(oq3_semantics::asg::Stmt::DefStmt(d)) = res.program().stmts().first() {
+        if let Some(oq3_semantics::asg::Stmt::DefStmt(d)) = res.program().stmts().iter().find(|s| matches!(s, oq3_semantics::asg::Stmt::DefStmt(_))) {
             let want = match &ret {
                 None => Type::Void,
                 Some((_, b, w)) => expected_type(b, *w, false),
@@ -434,6 +519,12 @@ impl Property for C09 {
             v.push(Stream::new("declaration-table-sampled-scopes", 20_000, false, move |i| spec(mix(&[seed, 0xC09, i]) % full)));
         }
         v.push(Stream::new("gate-signatures", 5 * 4 * 2, true, |i| format!("G|{}|{}|{}", i % 5, 1 + (i / 5) % 4, i / 20)));
+        v.push(Stream::new("user-gate-named-like-a-library-gate", STDGATES.len() as u64 * 2, true, |i| {
+            let n = STDGATES.len() as u64;
+            let (_, a, b) = STDGATES[(i % n) as usize];
+            // once with the library's arity, once with another one
+            if i / n == 0 { format!("GC|{}|{a}|{b}", i % n) } else { format!("GC|{}|{}|{}", i % n, (a + 1) % 4, b % 3 + 1) }
+        }));
         v.push(Stream::new("def-signatures", tier.pick(3_000, 100_000), false, move |i| format!("F|{}", mix(&[seed, 0xC09, 7, i]))));
         v
     }
@@ -443,6 +534,9 @@ impl Property for C09 {
         } else if let Some(rest) = input.strip_prefix("G|") {
             let p: Vec<usize> = rest.split('|').filter_map(|x| x.parse().ok()).collect();
             check_gate_sig(p[0], p[1], p[2] == 1, obs);
+        } else if let Some(rest) = input.strip_prefix("GC|") {
+            let p: Vec<usize> = rest.split('|').filter_map(|x| x.parse().ok()).collect();
+            check_gate_collision(p[0], p[1], p[2], obs);
         } else if let Some(rest) = input.strip_prefix("F|") {
             check_def_sig(rest.parse().unwrap_or(0), obs);
         } else {
